@@ -473,6 +473,8 @@ impl<Backing : AsRef<[u32]> + AsMut<[u32]>> DrawTarget<Backing> {
             let mut t_value = 0.;
             if valid_unit_divide(a - b, a - b - b + c, &mut t_value) {
                 let mut dst = [Point::new(0., 0.); 5];
+                #[cfg(feature = "verif")]
+                crate::verif::probe(crate::verif::ProbeSite::QuadChopped);
                 chop_quad_at(&curve, &mut dst, t_value);
                 flatten_double_quad_extrema(&mut dst);
                 self.rasterizer.add_edge(dst[0], dst[2], true, dst[1]);
@@ -481,6 +483,8 @@ impl<Backing : AsRef<[u32]> + AsMut<[u32]>> DrawTarget<Backing> {
             }
             // if we get here, we need to force dst to be monotonic, even though
             // we couldn't compute a unit_divide value (probably underflow).
+            #[cfg(feature = "verif")]
+            crate::verif::probe(crate::verif::ProbeSite::QuadForcedMonotonic);
             let b = if (a - b).abs() < (b - c).abs() { a } else { c };
             curve[1].y = b;
         }
@@ -500,6 +504,8 @@ impl<Backing : AsRef<[u32]> + AsMut<[u32]>> DrawTarget<Backing> {
                 to: pt,
             };
             c.for_each_quadratic_bezier(0.01, &mut |q| {
+                #[cfg(feature = "verif")]
+                crate::verif::tick(crate::verif::TickSite::CubicToQuads);
                 let curve = [q.from, q.ctrl, q.to];
                 self.add_quad(curve);
             });
@@ -551,6 +557,10 @@ impl<Backing : AsRef<[u32]> + AsMut<[u32]>> DrawTarget<Backing> {
     }
 
     pub fn push_clip_rect(&mut self, rect: IntRect) {
+        #[cfg(feature = "verif")]
+        if let Some(Clip { mask: Some(_), .. }) = self.clip_stack.last() {
+            crate::verif::probe(crate::verif::ProbeSite::ClipRectOverMask);
+        }
         // intersect with current clip
         let clip = match self.clip_stack.last() {
             Some(Clip {
@@ -582,6 +592,8 @@ impl<Backing : AsRef<[u32]> + AsMut<[u32]>> DrawTarget<Backing> {
         if let Some(last) = self.clip_stack.last() {
             // combine with previous mask
             if let Some(last_mask) = &last.mask {
+                #[cfg(feature = "verif")]
+                crate::verif::probe(crate::verif::ProbeSite::ClipMaskTimesPrevious);
                 for i in 0..((self.width * self.height) as usize) {
                     blitter.buf[i] = muldiv255(blitter.buf[i] as u32, last_mask[i] as u32) as u8
                 }
@@ -614,6 +626,14 @@ impl<Backing : AsRef<[u32]> + AsMut<[u32]>> DrawTarget<Backing> {
     /// group opacity or blend effects.
     pub fn push_layer_with_blend(&mut self, opacity: f32, blend: BlendMode) {
         let rect = self.clip_bounds();
+        #[cfg(feature = "verif")]
+        {
+            if rect.is_empty() {
+                crate::verif::probe(crate::verif::ProbeSite::LayerEmptyRect);
+            } else if rect.min.x != 0 || rect.min.y != 0 {
+                crate::verif::probe(crate::verif::ProbeSite::LayerNonZeroOrigin);
+            }
+        }
         self.layer_stack.push(Layer {
             rect,
             buf: vec![0; (rect.size().width * rect.size().height) as usize],
@@ -696,6 +716,12 @@ impl<Backing : AsRef<[u32]> + AsMut<[u32]>> DrawTarget<Backing> {
         let iheight = height as i32;
         let integer_rect = ix as f32 == x        && iy as f32 == y &&
                                 iwidth as f32 == width && iheight as f32 == height;
+        #[cfg(feature = "verif")]
+        let integer_rect = integer_rect && !(self.transform == Transform::identity() && self.clip_stack.is_empty() && {
+            let denied = crate::verif::buggify(crate::verif::BuggifySite::FillRectFast);
+            crate::verif::probe(if denied { crate::verif::ProbeSite::FillRectFastDenied } else { crate::verif::ProbeSite::FillRectFastTaken });
+            denied
+        });
 
         if self.transform == Transform::identity() && integer_rect && self.clip_stack.is_empty() {
             let bounds = intrect(0, 0, self.width, self.height);
@@ -716,6 +742,10 @@ impl<Backing : AsRef<[u32]> + AsMut<[u32]>> DrawTarget<Backing> {
     pub fn fill(&mut self, path: &Path, src: &Source, options: &DrawOptions) {
         self.apply_path(path);
         let bounds = self.rasterizer.get_bounds();
+        #[cfg(feature = "verif")]
+        if !(bounds.size().width > 0 && bounds.size().height > 0) {
+            crate::verif::probe(crate::verif::ProbeSite::FillEmptyBounds);
+        }
         if bounds.size().width > 0 && bounds.size().height > 0 {
             match options.antialias {
                 AntialiasMode::None => {
@@ -751,11 +781,15 @@ impl<Backing : AsRef<[u32]> + AsMut<[u32]>> DrawTarget<Backing> {
     pub fn clear(&mut self, solid: SolidSource) {
         let mut pb = PathBuilder::new();
         if self.clip_stack.is_empty() {
+            #[cfg(feature = "verif")]
+            crate::verif::probe(crate::verif::ProbeSite::ClearDirect);
             let color = solid.to_u32();
             for pixel in self.buf.as_mut() {
                 *pixel = color;
             }
         } else {
+            #[cfg(feature = "verif")]
+            crate::verif::probe(crate::verif::ProbeSite::ClearViaFill);
             let ctm = self.transform;
             self.transform = Transform::identity();
             pb.rect(0., 0., self.width as f32, self.height as f32);
@@ -879,6 +913,8 @@ impl DrawTarget {
                         clip,
                         clip_stride: width,
                     };
+                    #[cfg(feature = "verif")]
+                    crate::verif::probe(crate::verif::ProbeSite::BlitShaderClipMask);
                     ShaderBlitterStorage::ShaderClipMaskBlitter(scb)
                 } else {
                     let blend_fn = build_blend_proc::<BlendRowMaskClip>(blend);
@@ -893,6 +929,8 @@ impl DrawTarget {
                         clip_stride: width,
                         blend_fn
                     };
+                    #[cfg(feature = "verif")]
+                    crate::verif::probe(crate::verif::ProbeSite::BlitShaderClipBlendMask);
                     ShaderBlitterStorage::ShaderClipBlendMaskBlitter(scb_blend)
                 }
             }
@@ -906,6 +944,8 @@ impl DrawTarget {
                         dest,
                         dest_stride: dest_bounds.size().width,
                     };
+                    #[cfg(feature = "verif")]
+                    crate::verif::probe(crate::verif::ProbeSite::BlitShaderMask);
                     ShaderBlitterStorage::ShaderMaskBlitter(sb)
                 } else {
                     let blend_fn = build_blend_proc::<BlendRowMask>(blend);
@@ -918,6 +958,8 @@ impl DrawTarget {
                         dest_stride: dest_bounds.size().width,
                         blend_fn,
                     };
+                    #[cfg(feature = "verif")]
+                    crate::verif::probe(crate::verif::ProbeSite::BlitShaderBlendMask);
                     ShaderBlitterStorage::ShaderBlendMaskBlitter(sb_blend)
                 }
             }
@@ -932,6 +974,8 @@ impl DrawTarget {
                     dest_stride: dest_bounds.size().width,
                     blend_fn,
                 };
+                #[cfg(feature = "verif")]
+                crate::verif::probe(crate::verif::ProbeSite::BlitShaderBlend);
                 ShaderBlitterStorage::ShaderBlendBlitter(sb_blend)
             }
         };
@@ -955,6 +999,8 @@ impl<Backing : AsRef<[u32]> + AsMut<[u32]>> DrawTarget<Backing> {
         let ti = if let Some(ti) = ti {
             ti
         } else {
+            #[cfg(feature = "verif")]
+            crate::verif::probe(crate::verif::ProbeSite::CompositeSingular);
             // the transform is not invertible so we have nothing to draw
             return;
         };
@@ -971,6 +1017,8 @@ impl<Backing : AsRef<[u32]> + AsMut<[u32]>> DrawTarget<Backing> {
             .intersection_unchecked(&dest_bounds)
             .intersection_unchecked(&mask_rect);
         if rect.is_empty() {
+            #[cfg(feature = "verif")]
+            crate::verif::probe(crate::verif::ProbeSite::CompositeEmptyRect);
             return;
         }
 
@@ -1013,10 +1061,14 @@ impl<Backing : AsRef<[u32]> + AsMut<[u32]>> DrawTarget<Backing> {
                                 dst.y.max(dst_rect.min.y).min(dst_rect.max.y));
 
         if src_rect.is_empty() {
+            #[cfg(feature = "verif")]
+            crate::verif::probe(crate::verif::ProbeSite::CompositeSurfaceEmpty);
             return;
         }
 
         for y in src_rect.min.y..src_rect.max.y {
+            #[cfg(feature = "verif")]
+            crate::verif::probe(crate::verif::ProbeSite::CompositeSurfaceRows);
             let dst_row_start = (dst.x + (dst.y + y - src_rect.min.y) * self.width) as usize;
             let dst_row_end = dst_row_start + src_rect.size().width as usize;
             let src_row_start = (src_rect.min.x + y * src.width) as usize;
@@ -1124,5 +1176,48 @@ impl<Backing : AsRef<[u32]> + AsMut<[u32]>> DrawTarget<Backing> {
         }
 
         writer.write_image_data(&output)
+    }
+}
+
+#[cfg(feature = "verif")]
+impl<Backing : AsRef<[u32]> + AsMut<[u32]>> DrawTarget<Backing> {
+    /// True when the shared rasteriser holds nothing of an earlier path.
+    pub fn verif_rasterizer_idle(&self) -> bool {
+        self.rasterizer.verif_idle()
+    }
+
+    pub fn verif_clip_depth(&self) -> usize {
+        self.clip_stack.len()
+    }
+
+    pub fn verif_layer_depth(&self) -> usize {
+        self.layer_stack.len()
+    }
+
+    /// (current point, first point) of the path cursor kept between calls
+    pub fn verif_path_cursor(&self) -> (Option<Point>, Option<Point>) {
+        (self.current_point, self.first_point)
+    }
+
+    /// The coverage of `path` under the current transform as a `width * height`
+    /// byte mask, produced by the rasteriser alone (no shader, no blitter onto pixels).
+    pub fn verif_coverage(&mut self, path: &Path, antialias: AntialiasMode) -> Vec<u8> {
+        let len = (self.width * self.height) as usize;
+        self.apply_path(path);
+        let mut buf = match antialias {
+            AntialiasMode::None => {
+                let mut blitter = MaskBlitter::new(0, 0, self.width, self.height);
+                self.rasterizer.rasterize(&mut blitter, path.winding);
+                blitter.buf
+            }
+            AntialiasMode::Gray => {
+                let mut blitter = MaskSuperBlitter::new(0, 0, self.width, self.height);
+                self.rasterizer.rasterize(&mut blitter, path.winding);
+                blitter.buf
+            }
+        };
+        self.rasterizer.reset();
+        buf.truncate(len);
+        buf
     }
 }
